@@ -3,7 +3,7 @@
    skipped (no effect on the modelled state): updatetime = 2; h5save = opts.getSavePhaseSpace(); outstepnr = 0; simulationstep = 0
    local constants replaced by their (pure) initialisers: none *)
 From Coq Require Import List ZArith String.
-From Inovesa Require Import Model.Driver Model.Setup.
+From Inovesa Require Import Model.Driver Model.Setup Model.Observers.
 Import ListNotations.
 Local Open Scope Z_scope.
 Definition main_pre : blk :=
@@ -195,10 +195,44 @@ Definition main_setup : sblk :=
   (SOpq 148
   (SCall (Point (-5))
   (SOpq 169
+  (SOpq 182
+  (SOpq 183
   (SCall (Point (-6))
   (SOpq 256
   (SCall (Point (-7))
   (SOpq 368
+  (SIf (COpq 387)
+    (SOpq 393
+    (SIf (COpq 405)
+      (SOpq 406
+      (SOpq 407
+      (SOpq 408
+      (SOpq 410
+      (SOpq 413
+      (SOpq 414
+      (SOpq 415
+      (SOpq 417
+      (SOpq 418
+      (SOpq 419
+      (SOpq 424
+      (SOpq 426
+      (SOpq 427
+      (SOpq 428
+      (SDone)))))))))))))))
+      (SDone)
+    (SDone)))
+    (SDone)
+  (SIf (COpq 433)
+    (SOpq 434
+    (SOpq 435
+    (SOpq 439
+    (SOpq 442
+    (SOpq 443
+    (SOpq 444
+    (SOpq 446
+    (SOpq 458
+    (SDone)))))))))
+    (SDone)
   (SCall (Point (-8))
   (SOpq 471
   (SIf (COpq 481)
@@ -233,6 +267,12 @@ Definition main_setup : sblk :=
   (SOpq 553
   (SCall (Point (-11))
   (SOpq 558
+  (SIf (COpq 565)
+    (SOpq 566
+    (SOpq 567
+    (SOpq 568
+    (SDone))))
+    (SDone)
   (SCall (Point (-12))
   (SOpq 615
   (SCall (Point (-13))
@@ -287,23 +327,73 @@ Definition main_setup : sblk :=
     (SDone))
   (SCall (Point (-27))
   (SOpq 928
-  (SDone)))))))))))))))))))))))))))))))))))))))))))))))))).
+  (SDone))))))))))))))))))))))))))))))))))))))))))))))))))))))).
 (* opaque conditions of the set-up: (n, text) *)
 Definition setup_conds : list (Z * string) :=
   [(96, "!opts.parse(argc, argv)"%string);
    (112, "ofname.empty() && !opts.getForceRun()"%string);
+   (387, "fpclassify(gap) == 2"%string);
+   (405, "verbose && use_csr"%string);
+   (433, "verbose"%string);
    (481, "startdistfile.empty()"%string);
    (515, "isOfFileType('.h5', startdistfile) || isOfFileType('.hdf5', startdistfile)"%string);
    (522, "grid_t1 == nullptr"%string);
    (526, "nx != ps_bins"%string);
    (533, "isOfFileType('.txt', startdistfile)"%string);
+   (565, "verbose"%string);
    (710, "e1 > 0"%string);
    (713, "derivationtype == cubic && !(zerobin >= 1 && zerobin <= ps_bins - 2)"%string);
    (885, "isOfFileType('.h5', ofname) || isOfFileType('.hdf5', ofname)"%string);
    (919, "ofname.empty()"%string)].
 (* opaque statements of the set-up: (n, number of consecutive statements merged into it) *)
 Definition setup_opaque : list (Z * Z) :=
-  [(94, 1); (100, 1); (109, 1); (120, 1); (131, 2); (148, 1); (169, 38); (256, 39); (368, 5); (471, 1); (490, 3); (499, 1); (517, 1); (523, 1); (527, 1); (534, 1); (539, 1); (553, 2); (558, 3); (615, 3); (674, 9); (700, 1); (706, 2); (712, 1); (715, 1); (720, 9); (738, 2); (750, 2); (758, 2); (767, 1); (777, 4); (807, 2); (884, 1); (887, 2); (891, 1); (894, 2); (897, 2); (906, 1); (920, 1); (922, 1); (928, 1)].
+  [(94, 1); (100, 1); (109, 1); (120, 1); (131, 2); (148, 1); (169, 5); (182, 1); (183, 32); (256, 39); (368, 4); (393, 4); (406, 1); (407, 1); (408, 1); (410, 1); (413, 1); (414, 1); (415, 1); (417, 1); (418, 1); (419, 1); (424, 1); (426, 1); (427, 1); (428, 1); (434, 1); (435, 1); (439, 1); (442, 1); (443, 1); (444, 1); (446, 1); (458, 1); (471, 1); (490, 3); (499, 1); (517, 1); (523, 1); (527, 1); (534, 1); (539, 1); (553, 2); (558, 2); (566, 1); (567, 1); (568, 1); (615, 3); (674, 9); (700, 1); (706, 2); (712, 1); (715, 1); (720, 9); (738, 2); (750, 2); (758, 2); (767, 1); (777, 4); (807, 2); (884, 1); (887, 2); (891, 1); (894, 2); (897, 2); (906, 1); (920, 1); (922, 1); (928, 1)].
+(* observer options (verbosity): variables of main() initialised by opts.getVerbosity() *)
+Definition observer_vars : list string :=
+  ["verbose"%string].
+(* opaque conditions of the set-up that read an observer option *)
+Definition setup_observer_conds : list Z :=
+  [405; 433; 565].
+(* opaque statements / conditions of the set-up the translator found pure (only const member functions of objects declared outside,
+   writes to log sinks, block-local and report-only variables): everything under an observer guard has to be in this list *)
+Definition setup_pure_opaque : list Z :=
+  [182; 405; 406; 407; 408; 410; 413; 414; 415; 417; 418; 419; 424; 426; 427; 428; 433; 434; 435; 439; 442; 443; 444; 446; 458; 565; 566; 567; 568].
+(* what the statements / conditions under an observer guard of the set-up do: (n, effects) *)
+Definition setup_observed_effects : list (Z * list oeff) :=
+  [(405, []);
+   (406, []);
+   (407, []);
+   (408, []);
+   (410, []);
+   (413, []);
+   (414, []);
+   (415, []);
+   (417, []);
+   (418, []);
+   (419, []);
+   (424, []);
+   (426, []);
+   (427, []);
+   (428, []);
+   (433, []);
+   (434, []);
+   (435, []);
+   (439, []);
+   (442, []);
+   (443, []);
+   (444, []);
+   (446, [OConst "opts"%string "getStepsPerTrev"%string]);
+   (458, []);
+   (565, []);
+   (566, []);
+   (567, []);
+   (568, [])].
+(* variables assigned under an observer guard whose every use only reports (log, /Info attribute, other such variables) *)
+Definition report_only_vars : list string :=
+  ["shield"%string].
+(* observer-guarded statements of the simulation part (NOT part of main_prog): line, condition, effects *)
+Definition loop_observers : list ostmt :=
+  [].
 (* VERIF_POINT labels of the translated part, index = argument of Point *)
 Definition point_names : list (Z * string) :=
   [(0, "sim:start"%string);
